@@ -255,11 +255,13 @@ func run(ctx *Ctx) *Result {
 			return
 		}
 		common := false
+		inA := map[string]bool{}
 		for _, x := range c.A {
-			for _, y := range c.B {
-				if x.body(false) == y.body(false) {
-					common = true
-				}
+			inA[x.body(false)] = true
+		}
+		for _, y := range c.B {
+			if inA[y.body(false)] {
+				common = true
 			}
 		}
 		devText, spocText := config(c.Backend, c.A), config(c.Backend, c.B)
